@@ -7,6 +7,7 @@ def main (args : List String) : IO UInt32 := do
   match args with
   | "C04" :: rest => Driver.C04.main rest; return 0
   | "C05" :: rest => Driver.C05.main rest; return 0
+  | "C05sess" :: rest => Driver.C05.main rest; return 0
   | "C05parse" :: rest => Driver.C05.mainParse rest; return 0
   | "C14" :: rest => Driver.C14.main rest; return 0
   | "C20" :: rest => Driver.C20.main rest; return 0
